@@ -89,7 +89,11 @@ def run_case(case):
                     except BaseException as e:  # noqa
                         if isinstance(e, sim.StopSim):
                             raise
-                        outcomes.append(["result", op[1], "exc:" + type(e).__name__])
+                        from concurrent.futures import Future as _F
+                        if _F.cancelled(futs[op[1]]):
+                            outcomes.append(["result", op[1], "cancelled"])
+                        else:
+                            outcomes.append(["result", op[1], "exc:" + type(e).__name__])
                 elif kind == "shutdown":
                     ex.shutdown(wait=op[1], cancel_futures=op[2])
                     outcomes.append(["shutdown", "ok"])
